@@ -14,11 +14,22 @@ LITERALS = ["0", "1", "42", "1.5", "0.25", "10.0", "1e3", "2.5E-2", "'abc'", "''
             "FALSE", "'2020-01-02'", "-1", "123456789012"]
 
 
+# literal kinds that only some dialects read (the others reject the statement, which removes the pair)
+EXOTIC_LITERALS = [
+    "x'AB01'", "X'00'", "0xFF", "b'0101'", "N'abc'", "N'a''b'", r"U&'d\0061t\+000061'", "U&'line1\nline2'", "U&'q''uote'",
+    r"E'a\nb'", r"E'tab\there'", r"e'it\'s'", "$$dollar 'quoted'$$", "$tag$x$tag$", r"r'raw\n'", r"R'C:\dir'", "'''triple'''",
+    "'multi\nline'", "'tab\there'", r"'back\\slash'", "DATE '2020-01-02'", "TIMESTAMP '2020-01-02 03:04:05'",
+    "INTERVAL '1' DAY", "INTERVAL '2' MONTH", "1.", ".5", "1e-3", "1_000", "0b101", "'é日本😀'", "''''", "N'multi\nline'",
+]
+
+
 def extra_expr(rng, g, scope, d=2):
     """expression kinds beyond the typed engine fragment (text level only)"""
     r = rng.random()
     col = lambda: sqlgen.render(g.colref(scope, rng.choice([INT, TEXT])) or ("lit", 1, INT))
     if d <= 0 or r < 0.25:
+        if rng.random() < 0.25:
+            return rng.choice(EXOTIC_LITERALS)
         return rng.choice(LITERALS) if rng.random() < 0.5 else col()
     sub = lambda: extra_expr(rng, g, scope, d - 1)
     if r < 0.4:
@@ -112,6 +123,36 @@ def split_tokens(sql):
         if ch.isspace():
             i += 1
             continue
+        # dollar-quoted strings and prefixed string literals are one lexeme
+        if ch == "$":
+            import re as _re
+
+            m = _re.match(r"\$([A-Za-z_]*)\$", sql[i:])
+            if m:
+                end = sql.find(m.group(0), i + len(m.group(0)))
+                if end != -1:
+                    out.append(sql[i:end + len(m.group(0))])
+                    i = end + len(m.group(0))
+                    continue
+        if ch in "EeNnXxBbRrUu" and (i == 0 or not (sql[i - 1].isalnum() or sql[i - 1] == "_")):
+            k = i + 1
+            if k < n and sql[k] == "&":
+                k += 1
+            if k < n and sql[k] == "'":
+                j = k + 1
+                while j < n:
+                    if sql[j] == "\\" and ch in "EeRr" and j + 1 < n:
+                        j += 2
+                        continue
+                    if sql[j] == "'":
+                        if j + 1 < n and sql[j + 1] == "'":
+                            j += 2
+                            continue
+                        break
+                    j += 1
+                out.append(sql[i:j + 1])
+                i = j + 1
+                continue
         if ch in "'\"`":
             j = i + 1
             while j < n:
